@@ -17,7 +17,10 @@ F, Gf = P("f"), P("g")
 
 
 def arm_eval(ret, env, concrete):
-    """evaluate a FlagOp body: isinstance(x, bool) tests resolve to `concrete`; `x is True/False` resolve by value when concrete"""
+    """evaluate a FlagOp body.  `concrete` maps each operand to whether it is a Python bool (True) or an array / tracer (False), or is a single bool for all
+    operands: isinstance(x, bool) resolves by that, `x is True/False` and literal patterns only hold for concrete operands"""
+    conc = (lambda v: concrete) if isinstance(concrete, bool) else (lambda v: concrete.get(v, False))
+
     def go(t):
         if is_t(t, "phi"):
             c = t[1]
@@ -26,14 +29,14 @@ def arm_eval(ret, env, concrete):
 
     def test(c):
         if is_t(c, "isinst"):
-            return concrete
+            return conc(c[1])
         if is_t(c, "bool"):
             vs = [test(x) for x in c[2]]
             return all(vs) if c[1] == "and" else any(vs)
         if is_t(c, "is"):
-            return concrete and ev_int(c[1], env) is c[2][1]
+            return conc(c[1]) and ev_int(c[1], env) is c[2][1]
         if is_t(c, "cmp") and c[1] == "==":
-            return concrete and ev_int(c[2], env) == ev_int(c[3], env)
+            return conc(c[2]) and ev_int(c[2], env) == ev_int(c[3], env)
         if is_t(c, "un") and c[1] == "not":
             return not test(c[2])
         raise Unrecognised(show(c))
@@ -51,13 +54,13 @@ def flag_tables(chk, prog, props_rule="FLAG-TABLE"):
         ok, why = True, ""
         rows = 0
         try:
-            for concrete in (True, False):
+            for kinds in itertools.product([True, False], repeat=ar):  # each operand independently a Python bool or an array
                 for vals in itertools.product([False, True], repeat=ar):
                     env = dict(zip([F, Gf], vals))
-                    got = arm_eval(r.ret, env, concrete)
+                    got = arm_eval(r.ret, env, dict(zip([F, Gf], kinds)))
                     rows += 1
                     if bool(got) != bool(spec(*vals)):
-                        ok, why = False, f"{'concrete' if concrete else 'array'} arm at {vals}: {got}"
+                        ok, why = False, f"operands {['bool' if k else 'array' for k in kinds]} at {vals}: {got}"
         except Unrecognised as e:
             raise AnalysisError(f"FlagOp.{m}: unrecognised form {e}")
         n += 1
